@@ -214,4 +214,22 @@ for i in range(N):
         what = problems[0]
         sig = "aliasing" if "objects" in what or "object" in what.split(":")[-1] else ("type" if "came back as" in what and "collection" not in what and "." not in what.split(":")[0][-3:] else "value")
         rep.fail(f"not-isomorphic::{kind}::{sig}", f"{kind}: {what}", inp)
+# ---- functions are alternatively mapped by (module, owning class, name): same-named functions of several classes of one module
+from test.dataset import example_classes as _ex
+FUNCS = [_ex.module_level_function, _ex.CallableWrapper.custom_instance_method, _ex.CallableWrapper.custom_static_method,
+         _ex.CustomEntity.create_from_dao, _ex.VectorMapped.create_from_dao, _ex.TransformationMapped.create_from_dao,
+         _ex.CustomEntity.create_instance, _ex.VectorMapped.create_instance]
+FUNCS = [getattr(f, "__func__", f) for f in FUNCS]
+for order_i in range(6 if a.tier == "quick" else 60):
+    order = list(FUNCS)
+    rng.shuffle(order)
+    for f in order:
+        st, back = guarded(lambda: to_dao(_ex.CallableWrapper(f)).from_dao())
+        rep.case(("function", order_i, f.__qualname__), sample={"kind": "function", "function": f.__qualname__} if order_i == 0 else None)
+        inp = {"kind": "function", "function": f.__qualname__, "converted_before": [g_.__qualname__ for g_ in order[:order.index(f)]]}
+        if st == "exc":
+            rep.fail(f"raised::function::{type(back).__name__}", f"CallableWrapper({f.__qualname__}): round trip raised {type(back).__name__}: {str(back)[:200]}", inp)
+        elif getattr(back.func, "__func__", back.func) is not f:
+            rep.fail("not-isomorphic::function::value", f"CallableWrapper({f.__qualname__}) came back with {getattr(back.func, '__qualname__', back.func)!r} "
+                     f"(converted before: {inp['converted_before']})", inp)
 rep.finish()
